@@ -80,13 +80,13 @@ theorem simp_linkOff (a : Nat) (s : St) (l : Nat) : Simp a s (linkOff s l) := by
   by_cases hon : s.linkOn l = true
   · rw [linkOff_eq s l hon]
     have s1 : Simp a s { s with linkOn := upd s.linkOn l false } :=
-      ⟨⟨List.prefix_refl _, id, rfl⟩, rfl, fun _ => rfl, fun _ => StatLe.refl _, fun _ h => h, fun q => q⟩
+      ⟨⟨List.prefix_refl _, id, rfl⟩, rfl, fun _ => rfl, fun _ => StatLe.refl _, fun _ h => h⟩
     exact s1.trans (simp_foldl a _ (simp_failIf _ a) _ _)
   · unfold linkOff; simp [hon]; exact Simp.refl a s
 
 theorem pend_linkOff (s : St) (l k a : Nat) (hon : s.linkOn l = true) (hk : k < s.nActs)
     (hc : (s.acts k).kind = .comm) (hl : l ∈ (s.acts k).links) (hst : (s.acts k).action = some .started)
-    (hq : QOK s) (ha : Answerable s a) (hm : a ∈ (s.acts k).simcalls) :
+    (ha : Answerable s a) (hm : a ∈ (s.acts k).simcalls) :
     PendS (linkOff s l) a k (.exc .net) := by
   have sp := simp_linkOff a s l
   have hf : ((linkOff s l).acts k).action = some .failed ∧ k ∈ (linkOff s l).failedQ := by
@@ -95,7 +95,7 @@ theorem pend_linkOff (s : St) (l k a : Nat) (hon : s.linkOn l = true) (hk : k < 
     left
     exact ⟨List.mem_range.mpr hk, hst, hc, hl⟩
   have hkind : ((linkOff s l).acts k).kind = .comm := by rw [(sp.stat k).1]; exact hc
-  refine ⟨?_, ?_, Or.inl ⟨hkind, Or.inr (Or.inr hf.1)⟩, hf.2, ?_, sp.qok hq⟩
+  refine ⟨?_, ?_, Or.inl ⟨hkind, Or.inr (Or.inr hf.1)⟩, hf.2, ?_⟩
   · rw [answerable_iff_core, sp.core, ← answerable_iff_core]; exact ha
   · rw [sp.simc]; exact hm
   · rw [hkind]; rfl
@@ -131,7 +131,7 @@ of another host) is answered or the situation is pending for `handle_ended_actio
 host has just been marked off. -/
 theorem res_hostOff_exec (s1 : St) (h k a : Nat) (hoff : s1.hostOn h = false) (hk : k < s1.nActs)
     (hc : (s1.acts k).kind = .exec) (hh : h ∈ (s1.acts k).hosts) (hst : (s1.acts k).action = some .started)
-    (hq : QOK s1) (ha : Answerable s1 a) (hm : a ∈ (s1.acts k).simcalls) :
+    (ha : Answerable s1 a) (hm : a ∈ (s1.acts k).simcalls) :
     Ext s1 (maestroPhase h (killPhase h (cpuPhase h s1))) ∧
     Res s1 (maestroPhase h (killPhase h (cpuPhase h s1))) a k (.exc .host) := by
   have sp : Simp a s1 (cpuPhase h s1) := simp_cpuPhase a h s1
@@ -144,7 +144,7 @@ theorem res_hostOff_exec (s1 : St) (h k a : Nat) (hoff : s1.hostOn h = false) (h
   have hkind : ((cpuPhase h s1).acts k).kind = .exec := by rw [(sp.stat k).1]; exact hc
   have hoff2 : (cpuPhase h s1).hostOn h = false := by rw [sp.ext.hostOn]; exact hoff
   have p2 : PendS (cpuPhase h s1) a k (.exc .host) := by
-    refine ⟨?_, ?_, Or.inr ⟨hkind, by rw [hf.1]; simp, h, ?_, hoff2⟩, hf.2, ?_, sp.qok hq⟩
+    refine ⟨?_, ?_, Or.inr ⟨hkind, by rw [hf.1]; simp, h, ?_, hoff2⟩, hf.2, ?_⟩
     · rw [answerable_iff_core, sp.core, ← answerable_iff_core]; exact ha
     · rw [sp.simc]; exact hm
     · rw [(sp.stat k).2.2.2.1]; exact hh
